@@ -315,3 +315,94 @@ BIT_NAMES = {1: "gate result", 2: "final pattern counts (chosen row, count)", 4:
 
 def bit_names(code):
     return [n for b, n in BIT_NAMES.items() if code & b]
+
+
+# ----------------------------------------------------------------------------- instants across block edges (follow-up: seeded C12-m3)
+# Notations with VARIABLE-LENGTH parts (1..9 fractional digits; zone forms of different lengths).  The zone form is
+# fixed per file (one notation per file); the number of fractional digits varies from line to line.
+
+ZONE_FORMS = [b"", b"+01:00", b"-0330", b"Z", b" UTC", b" +05:45", b" PST", b"-11"]
+DT_FORMAT = "%Y%m%dT%H%M%S%.9f"          # with -u: the instant attributed to every printed line, in UTC, nanoseconds
+
+
+def frac_digits(rng, n):
+    s = b"".join(b"%d" % rng.randrange(10) for _ in range(n))
+    return s[:-1] + b"%d" % rng.randrange(1, 10)          # last digit non-zero: every shorter prefix is another value
+
+
+def stamp_frac(rng, t, style, zone, nfrac=None):
+    h, m, s = _hms(t)
+    d = 1 + (t // 86400) % 28
+    nfrac = rng.randrange(1, 10) if nfrac is None else nfrac
+    fr = frac_digits(rng, nfrac)
+    if style == "iso":
+        return b"2020-01-%02dT%02d:%02d:%02d.%s%s" % (d, h, m, s, fr, zone)
+    if style == "space":
+        return b"2020-01-%02d %02d:%02d:%02d,%s%s" % (d, h, m, s, fr, zone)
+    if style == "bracket":
+        return b"[2020/01/%02d %02d:%02d:%02d.%s]" % (d, h, m, s, fr)
+    raise ValueError(style)
+
+
+FRAC_STYLES = ["iso", "iso", "space", "bracket"]      # (epoch.fraction is matched for some digit counts only: not one notation)
+
+
+def pad_line(n):
+    """a continuation line of exactly n bytes (n >= 1)"""
+    return b"\n" if n == 1 else b" " + b"p" * (n - 2) + b"\n"
+
+
+def sweep_file(rng, bs, style, zone, positions=None):
+    """a single-notation log in which, for the block size bs, a block edge falls at EVERY position j = 0..L+1 of the
+    timestamp of some dated line (before / inside / after year, time, fraction, zone), in later blocks; the first line
+    is short and complete in block zero.  Continuation lines pad each dated line to its offset."""
+    t = rng.randrange(0, 3000)
+    out = bytearray(stamp_frac(rng, t, style, zone) + b" |first\n")
+    probe = stamp_frac(rng, t, style, zone, 9)
+    js = list(range(0, len(probe) + 2)) if positions is None else list(positions)
+    rng.shuffle(js)
+    for j in js:
+        t += rng.choice([1, 2, 61])
+        st = stamp_frac(rng, t, style, zone)
+        off = len(out)
+        k = (off + j) // bs + 1
+        target = k * bs - j                  # the dated line starts j bytes before the edge k*bs
+        while target < off:
+            target += bs
+        if target > off:
+            out += pad_line(target - off)
+        out += st + b" |m%d\n" % j
+        if rng.random() < 0.3:
+            out += b" cont\n"
+    return bytes(out)
+
+
+def small_frac_file(rng, nmsg=None):
+    """a small single-notation log (for runs at EVERY block size): dated lines with 1..9 fractional digits"""
+    style, zone = rng.choice(FRAC_STYLES), rng.choice(ZONE_FORMS)
+    t = rng.randrange(0, 3000)
+    out = bytearray()
+    for k in range(nmsg or rng.choice([3, 4, 6])):
+        t += rng.choice([1, 2, 61])
+        out += stamp_frac(rng, t, style, zone) + rng.choice([b" |a\n", b" |hello world\n", b"\n", b" |" + b"x" * rng.randrange(1, 70) + b"\n"])
+        for _ in range(rng.choice([0, 0, 1, 2])):
+            out += pad_line(rng.choice([1, 2, 7, 30, 63, 64, 65]))
+    return bytes(out), "%s zone=%r" % (style, zone.decode())
+
+
+def uniform(f, orc):
+    """single-notation domain: some row matches the first dated line and every later line that any row dates"""
+    d = dated_lines(f, orc)
+    return bool(d) and all(matched_by(d[0][2], x[4], orc) for x in d)
+
+
+def parse_items_ns(s):
+    """T/R answer -> (status, [(beg, end, ns)])"""
+    p = s.split("\t")
+    st = p[1] if len(p) > 1 else "?"
+    items = []
+    for it in p[3:]:
+        if it:
+            a = it.split(",")
+            items.append((int(a[0]), int(a[1]), int(a[2])))
+    return st, items
